@@ -5,6 +5,7 @@ usage: refactor_task.py <tag> "<files / functions to refactor>"
 """
 import os, subprocess, sys
 tag, scope = sys.argv[1], sys.argv[2]
+style = sys.argv[3] if len(sys.argv) > 3 else ""
 wt = f"/tmp/refac_{tag}"; out = f"/tmp/refac_{tag}_out"
 subprocess.run(["git", "-C", "/repo", "worktree", "add", "--detach", wt, "HEAD"], check=True, capture_output=True)
 os.makedirs(out, exist_ok=True)
@@ -18,6 +19,7 @@ Refactor the following code the way a careful maintainer would in a clean-up pul
 {scope}
 
 Make a substantial number of edits (aim for 15-40 changed lines spread over the functions named above), using a mix of: renaming local variables (not parameters, attributes, dict keys or functions), extracting a sub-expression into a well-named local, inlining a single-use local, rewriting a loop as a comprehension or vice versa where it is exactly equivalent, flipping a comparison (`a < b` -> `b > a`), inverting an if/else (`if not c: B else: A`), early returns / guard clauses, de Morgan, `x is not None` idioms that are already exact, passing an argument by keyword instead of by position (or the reverse), adding or rewording log messages and comments, splitting a long statement, hoisting a repeated pure expression (only if it is evaluated the same number of times where that matters, e.g. not for random draws or file operations).
+{style}
 Do NOT change any public name, signature, file format, default value, constant, comparison strictness, order of calls that have side effects, or what is logged at warning level or above. Do not "fix" anything you believe is a bug.
 
 The code must still import and the existing test suite must pass: `cd {wt} && PYTHONPATH={wt} PATH=/venv/bin:$PATH /venv/bin/python -m pytest -q -p no:cacheprovider --timeout=900 -x` (77 tests, ~45 s; delete untracked `infretis_data*.txt` / `worker*.log` leftovers afterwards).
